@@ -27,7 +27,13 @@ type genEv struct {
 // genBehaviours runs LzmaGen in simulation mode and returns de-duplicated
 // behaviours (one per distinct prefix of length Depth-1).
 func genBehaviours(c *hx.Ctx, dict, depth, num int, seed int64) [][]genEv {
-	cfg := fmt.Sprintf("SPECIFICATION GSpec\nCONSTANTS DictCap = %d\n Depth = %d\nINVARIANTS Emit TypeOK FrontInWindow\nCHECK_DEADLOCK FALSE\n", dict, depth)
+	return genBehavioursOpt(c, dict, depth, num, seed, true)
+}
+
+// genBehavioursOpt: chunkEvents=false restricts LzmaGen to pure operation
+// sequences (classic .lzma streams have no chunk layer).
+func genBehavioursOpt(c *hx.Ctx, dict, depth, num int, seed int64, chunkEvents bool) [][]genEv {
+	cfg := fmt.Sprintf("SPECIFICATION GSpec\nCONSTANTS DictCap = %d\n Depth = %d\n ChunkEvents = %s\nINVARIANTS Emit TypeOK FrontInWindow\nCHECK_DEADLOCK FALSE\n", dict, depth, map[bool]string{true: "TRUE", false: "FALSE"}[chunkEvents])
 	r := c.TLC(tlc.Opts{Module: "LzmaGen", Cfg: "gen.cfg", Files: map[string][]byte{"gen.cfg": []byte(cfg)}, Simulate: fmt.Sprintf("num=%d", num), Depth: depth + 1, Seed: seed, Timeout: 10 * time.Minute})
 	if !r.OK {
 		c.Inconclusive("LzmaGen failed: %s %s\n%s", r.Violation, r.ErrText, r.Tail(10))
